@@ -24,7 +24,7 @@ import (
 )
 
 const (
-	rfHealthy = iota
+	rfHealthy    = iota
 	rfRefuse     // the dialer refuses the address
 	rfDropBefore // the broker reads the metadata request and closes the connection
 	rfDropAfter  // the broker handles the request and closes without answering
@@ -36,9 +36,9 @@ var rfNames = []string{"up", "refused", "drop-mid-request", "drop-unanswered", "
 // One run: a client, a list of phases. Address labels: "b<i>" = advertised
 // address of broker i, "a<i>" = bootstrap alias resolving to broker i.
 type cliReachRun struct {
-	Mode     string           // newclient: phase 0 is in force while NewClient runs; refresh: the client is created on a healthy cluster
-	Seeds    []string         // labels
-	Order    []string         // steered order of the seeds (refresh mode; nil = as NewClient shuffled them)
+	Mode     string   // newclient: phase 0 is in force while NewClient runs; refresh: the client is created on a healthy cluster
+	Seeds    []string // labels
+	Order    []string // steered order of the seeds (refresh mode; nil = as NewClient shuffled them)
 	RetryMax int
 	Phases   []map[string]int // label -> fault kind (b-labels: any kind, a-labels: up / refused)
 }
@@ -548,7 +548,6 @@ func dialOrder(ds []sarama.VSimDial, labelOf map[string]string) string {
 	}
 	return strings.Join(out, ">")
 }
-
 
 // healthyWhere names, from the client's own lists before the call, where the
 // answering addresses were: among the seeds it would still try, among the seeds
